@@ -8,7 +8,7 @@ using namespace vf;
 
 namespace {
 enum UMode { U_POINTER, U_PATCH, U_GENERATE, U_MERGE };
-enum { K_RESOLVE = 0, K_CONSTRUCT = 1, K_PATCH = 2, K_GEN = 3, K_MERGE = 4, K_MGEN = 5 };
+enum { K_RESOLVE = 0, K_CONSTRUCT = 1, K_PATCH = 2, K_GEN = 3, K_MERGE = 4, K_MGEN = 5, K_PTR_EDITS = 6 };
 
 struct XUtils : Engine {
     UMode mode = U_POINTER; bool verbose = false; bool hooks_stage = false;
@@ -70,6 +70,8 @@ struct XUtils : Engine {
             "{\"z\":26,\"y\":25,\"x\":{\"w\":23,\"v\":[22,{\"u\":21,\"t\":20}]},\"A\":1,\"a\":2,\"\\u00e9\":3,\"_\":4,\"0\":5,\"01\":6,\"-\":7}",
             "\"plain string\"", "42", "[]", "{}" };
         for (auto t : texts) { RV v; if (!S_parse((const uint8_t*)t, strlen(t), v)) { fprintf(stderr, "bad big doc %s\n", t); abort(); } size_t oi = D.size(); D.push_back(v); std::vector<RV> ms; mutate(v, ms); for (auto& m : ms) { bigpairs.push_back({ oi, D.size() }); D.push_back(m); } }
+        { RV e = RV::mk(RV::Obj); RV wide = RV::mk(RV::Obj); RV arr = RV::mk(RV::Arr); for (int i = 0; i < 10005; i++) arr.arr.push_back(RV::number(i)); wide.obj.emplace_back("w", arr); size_t a = D.size(); D.push_back(e); D.push_back(wide); bigpairs.push_back({ a, a + 1 });
+          RV nested = RV::mk(RV::Arr); RV lvl = RV::mk(RV::Arr); for (int i = 0; i < 2600; i++) lvl.arr.push_back(RV::number(i)); for (int d = 0; d < 4; d++) { RV up = RV::mk(RV::Arr); up.arr.push_back(lvl); up.arr.push_back(lvl); lvl = up; } nested.arr.push_back(lvl); D.push_back(RV::mk(RV::Arr)); D.push_back(nested); bigpairs.push_back({ a + 2, a + 3 }); }
         for (auto& v : D) Dreal.push_back(nullptr);   // built per case
     }
     void build(const std::string& which) {
@@ -88,8 +90,8 @@ struct XUtils : Engine {
     std::vector<std::string> stages() override {
         init(); bool T = cfg.thorough(); std::vector<std::string> st;
         switch (mode) {
-            case U_POINTER: { long k = cfg.optl("ptrlen", T ? 5 : 4); for (long i = 0; i <= k; i++) st.push_back("resolve_len" + std::to_string(i)); st.push_back("resolve_special"); st.push_back("construct"); if (T) { st.push_back("resolve4"); st.push_back("construct4"); } break; }
-            case U_PATCH: st = { "single1", "single1_hooks", "indices", "bigpatch", "single2", "robust", "pairs" }; if (T) { st.push_back("single2full"); st.push_back("single3"); st.push_back("single4"); } break;
+            case U_POINTER: { long k = cfg.optl("ptrlen", T ? 5 : 4); for (long i = 0; i <= k; i++) st.push_back("resolve_len" + std::to_string(i)); st.push_back("resolve_special"); st.push_back("construct"); st.push_back("after_edits"); if (T) { st.push_back("resolve4"); st.push_back("construct4"); } break; }
+            case U_PATCH: st = { "single1", "single1_hooks", "indices", "casekeys", "bigpatch", "single2", "robust", "pairs" }; if (T) { st.push_back("single2full"); st.push_back("single3"); st.push_back("single4"); } break;
             case U_GENERATE: st = { "big", "pairs" }; if (T) st.push_back("pairs4"); break;
             case U_MERGE: st = { "bigapply", "biggenerate", "apply", "generate" }; if (T) { st.push_back("apply4"); st.push_back("generate4"); } break;
         }
@@ -135,6 +137,9 @@ struct XUtils : Engine {
                 for (const char* t : { "01", "00", "1:", "1A", "+1", "1e0", "18446744073709551616", "18446744073709551617", "4294967296", "4294967297", " 1", "1 ", "-1", "0x1", "1.0", "29", "30", "10", "11", "9", "099", "1/", "a~", "~2", "~", "a~1b", "m~0n", "~01", "~10", "~00", "~11", "k~0~1", "k~/" })
                     for (const char* pre : { "/", "", "/0/", "/a/", "/a~1b/", "/a~1b/10/", "//", "/~1/" }) for (const char* post : { "", "/", "/0", "/a", "/k~0~1" }) sp.push_back(std::string(pre) + t + post);
                 for (auto& s : sp) { if (!pool_take()) continue; static Case c; c.kind = K_RESOLVE; c.set(s); for (size_t d = 0; d < D.size(); d++) { c.iv[1] = (int64_t)d; pool_run(c); } }
+            } else if (stage == "after_edits") {
+                // lookup, edit the array, lookup again: resolution must follow the current contents (no state kept between calls)
+                for (int i = 0; i <= 7; i++) for (int op = 0; op < 4; op++) for (int pos = 0; pos < 7; pos++) for (int j = 0; j <= 8; j++) { if (!pool_take()) continue; static Case c; c.kind = K_PTR_EDITS; c.iv[1] = i; c.iv[2] = op; c.iv[3] = pos; c.iv[4] = j; c.len = 0; pool_run(c); }
             } else { for (size_t d = 0; d < D.size(); d++) { if (!pool_take()) continue; static Case c; c.kind = K_CONSTRUCT; c.iv[1] = (int64_t)d; c.len = 0; pool_run(c); } }
             return;
         }
@@ -145,6 +150,16 @@ struct XUtils : Engine {
                 std::vector<std::string> paths = token_paths(L), froms = token_paths(L > 2 ? 2 : L);
                 std::vector<RV> ops = single_ops(paths, froms);
                 for (size_t d = 0; d < D.size(); d++) for (size_t chunk = 0; chunk < ops.size(); chunk += 64) { if (!pool_take()) continue; for (size_t o = chunk; o < ops.size() && o < chunk + 64; o++) { RV p = RV::mk(RV::Arr); p.arr.push_back(ops[o]); run_patch(d, p); } }
+            } else if (stage == "casekeys") {
+                // member names of an operation are case-sensitive: "OP", "Path", "From", "VALUE" are not the RFC members
+                std::vector<RV> base; RV v1 = RV::number(1); std::string fa = "/a", fb = "/b";
+                base.push_back(mkop("add", "/b", nullptr, &v1)); base.push_back(mkop("remove", "/a", nullptr, nullptr)); base.push_back(mkop("replace", "/a", nullptr, &v1)); base.push_back(mkop("test", "/a", nullptr, &v1)); base.push_back(mkop("move", "/b", &fa, nullptr)); base.push_back(mkop("copy", "/b", &fa, nullptr));
+                std::vector<RV> docs2; for (const char* t : { "{\"a\":1}", "{\"a\":2,\"b\":3}", "{\"A\":1}", "[1]" }) { RV v; S_parse((const uint8_t*)t, strlen(t), v); docs2.push_back(v); }
+                auto variants = [](const std::string& k) { std::vector<std::string> v; std::string up = k; for (auto& ch : up) ch = (char)toupper(ch); std::string cap = k; cap[0] = (char)toupper(cap[0]); std::string tail = k; tail[tail.size() - 1] = (char)toupper(tail[tail.size() - 1]); v = { up, cap, tail }; return v; };
+                for (size_t d = 0; d < docs2.size(); d++) { if (!pool_take()) continue;
+                    for (auto& op : base) for (size_t m = 0; m < op.obj.size(); m++) for (auto& nk : variants(op.obj[m].first)) for (int keep = 0; keep < 3; keep++) {
+                        RV o2 = op; o2.obj[m].first = nk; if (keep == 1) o2.obj.push_back(op.obj[m]); /* variant first, real member after */ if (keep == 2) o2.obj.insert(o2.obj.begin(), std::make_pair(op.obj[m].first, op.obj[m].first == "op" ? RV::string("test") : op.obj[m].second)); /* real member first, variant after */
+                        RV p = RV::mk(RV::Arr); p.arr.push_back(o2); static Case c; c.kind = K_PATCH; c.iv[1] = -1; c.iv[3] = 0; std::string ser = rv_ser(docs2[d]) + "\x1f" + rv_ser(p); c.set(ser); ctr().extra[4]++; pool_run(c); } }
             } else if (stage == "bigpatch") {
                 // every operation on every existing / insertable location of the larger documents (paths up to 9 tokens deep)
                 for (size_t d = 0; d < D.size(); d++) {
@@ -228,7 +243,7 @@ struct XUtils : Engine {
         struct Restore { bool on; ~Restore() { if (on) install_hooks(HK_DEFAULT); } } restore{hk};
         switch (c.kind) {
             case K_RESOLVE: do_resolve(c); break; case K_CONSTRUCT: do_construct(c); break; case K_PATCH: do_patch(c); break;
-            case K_GEN: do_generate(c); break; case K_MERGE: do_merge(c); break; case K_MGEN: do_mergegen(c); break;
+            case K_GEN: do_generate(c); break; case K_PTR_EDITS: do_ptr_edits(c); break; case K_MERGE: do_merge(c); break; case K_MGEN: do_mergegen(c); break;
         }
         if (hk && (L.libc_from_lib || L.reallocs)) V("memory:hooks-bypassed", "C library allocator used directly while custom hooks are installed (" + std::to_string(L.libc_from_lib) + " calls, " + std::to_string(L.reallocs) + " reallocs) | " + describe(c));
         if (L.errors) { V("memory:allocator-misuse", std::string(L.first_error) + " | " + describe(c)); L.errors = 0; }
@@ -270,6 +285,20 @@ struct XUtils : Engine {
         if (s) { V("pointer:construct-foreign", "FindPointerFromObjectTo returned \"" + printable(s) + "\" for a node outside the tree"); LIBV(cJSON_free(s)); }
         if (LIB(cJSONUtils_FindPointerFromObjectTo(nullptr, Dreal[d])) || LIB(cJSONUtils_FindPointerFromObjectTo(Dreal[d], nullptr))) V("pointer:construct-null-arg", "NULL argument accepted");
         if (LIB(cJSONUtils_GetPointerCaseSensitive(Dreal[d], nullptr)) || LIB(cJSONUtils_GetPointerCaseSensitive(nullptr, "/a"))) V("pointer:null-arg", "NULL argument resolved to a node");
+    }
+
+    void do_ptr_edits(const Case& c) {
+        int i = (int)c.iv[1], op = (int)c.iv[2], pos = (int)c.iv[3], j = (int)c.iv[4];
+        cJSON* doc = LIB(cJSON_Parse("{\"a\":[10,11,12,13,14,15],\"b\":[20,21]}")); cJSON* arr = LIB(cJSON_GetObjectItem(doc, "a")); std::vector<int> model = { 10, 11, 12, 13, 14, 15 };
+        auto look = [&](int idx, const char* when) { char p[32]; snprintf(p, sizeof p, "/a/%d", idx); cJSON* g = LIB(cJSONUtils_GetPointerCaseSensitive(doc, p)); ctr().calls++; ctr().compared++;
+            bool exp_ok = idx >= 0 && idx < (int)model.size(); if ((g != nullptr) != exp_ok || (g && (!cJSON_IsNumber(g) || g->valueint != model[idx]))) V("pointer:stale-after-edit", std::string("pointer ") + p + " " + when + " the edit returned " + (g ? "element " + std::to_string(g->valueint) : std::string("NULL")) + ", expected " + (exp_ok ? "element " + std::to_string(model[idx]) : std::string("NULL"))); };
+        look(i, "before");
+        if (op == 0 && pos < (int)model.size()) { LIBV(cJSON_DeleteItemFromArray(arr, pos)); model.erase(model.begin() + pos); }
+        else if (op == 1) { int at = pos > (int)model.size() ? (int)model.size() : pos; LIBV(cJSON_InsertItemInArray(arr, at, LIB(cJSON_CreateNumber(99)))); model.insert(model.begin() + at, 99); }
+        else if (op == 2 && pos < (int)model.size()) { LIBV(cJSON_ReplaceItemInArray(arr, pos, LIB(cJSON_CreateNumber(77)))); model[pos] = 77; }
+        else if (op == 3) { cJSON* p = LIB(cJSON_Parse("[{\"op\":\"remove\",\"path\":\"/a/0\"},{\"op\":\"add\",\"path\":\"/a/-\",\"value\":55}]")); if (LIB(cJSONUtils_ApplyPatchesCaseSensitive(doc, p)) == 0) { model.erase(model.begin()); model.push_back(55); } LIBV(cJSON_Delete(p)); }
+        look(j, "after"); look(i, "after"); ctr().nontrivial++;
+        LIBV(cJSON_Delete(doc));
     }
 
     void do_patch(const Case& c) {
@@ -358,6 +387,7 @@ struct XUtils : Engine {
 
     std::string describe(const Case& c) override {
         size_t i = (size_t)c.iv[1], j = (size_t)c.iv[2]; std::string di = i < D.size() ? rv_text(D[i]).substr(0, 120) : "#" + std::to_string(i), dj = j < D.size() ? rv_text(D[j]).substr(0, 120) : "#" + std::to_string(j);
+        if (c.kind == K_PTR_EDITS) return "lookup /a/" + std::to_string(c.iv[1]) + ", edit kind " + std::to_string(c.iv[2]) + " at " + std::to_string(c.iv[3]) + ", lookup /a/" + std::to_string(c.iv[4]);
         switch (c.kind) { case K_RESOLVE: return "pointer \"" + printable(c.str()) + "\" on " + di; case K_CONSTRUCT: return "construct pointers in " + di; case K_PATCH: { if (c.iv[1] < 0) { std::string x = c.str(); size_t sep = x.find('\x1f'); RV dd, pp; if (sep != std::string::npos && rv_deser(x.substr(0, sep), dd) && rv_deser(x.substr(sep + 1), pp)) return "document " + rv_text(dd) + " patch " + rv_text(pp).substr(0, 200); return "?"; } RV p; rv_deser(c.str(), p); return "document " + di + " patch " + rv_text(p).substr(0, 200); } default: return di + " -> " + dj; }
     }
     void finish(std::map<std::string, std::string>& x) override {
